@@ -199,7 +199,7 @@ func (v *Validator) validateGlobalVariables() {
 
 		if gv.Binding != nil {
 			key := fmt.Sprintf("%d:%d", gv.Binding.Group, gv.Binding.Binding)
-			if bindings[key] {
+			if bindings[key] && v.bindingConflict(i) {
 				v.addError(fmt.Sprintf("global variable %q: duplicate binding @group(%d) @binding(%d)",
 					gv.Name, gv.Binding.Group, gv.Binding.Binding))
 			}
@@ -212,6 +212,49 @@ func (v *Validator) validateGlobalVariables() {
 			}
 		}
 	}
+}
+
+// bindingConflict reports whether global variable i shares its @group/@binding with an
+// earlier resource variable that is statically used by the same entry point. WGSL only
+// requires bindings to be unique among the resources of one entry point; different entry
+// points of a module may reuse a binding. Modules without entry points keep the
+// module-wide rule.
+func (v *Validator) bindingConflict(i int) bool {
+	if len(v.module.EntryPoints) == 0 {
+		return true
+	}
+	gv := &v.module.GlobalVariables[i]
+	for e := range v.module.EntryPoints {
+		used := v.entryPointGlobals(&v.module.EntryPoints[e].Function)
+		if !used[i] {
+			continue
+		}
+		for j := 0; j < i; j++ {
+			other := &v.module.GlobalVariables[j]
+			if used[j] && other.Binding != nil &&
+				other.Binding.Group == gv.Binding.Group && other.Binding.Binding == gv.Binding.Binding {
+				return true
+			}
+		}
+	}
+	return false
+}
+
+// entryPointGlobals marks the global variables statically used by fn and its callees.
+func (v *Validator) entryPointGlobals(fn *Function) []bool {
+	usedGlobals := make([]bool, len(v.module.GlobalVariables))
+	usedFunctions := make([]bool, len(v.module.Functions))
+	var trace func(f *Function)
+	trace = func(f *Function) {
+		for _, expr := range f.Expressions {
+			if g, ok := expr.Kind.(ExprGlobalVariable); ok && int(g.Variable) < len(usedGlobals) {
+				usedGlobals[g.Variable] = true
+			}
+		}
+		traceStatementsForRefs(f.Body, usedGlobals, usedFunctions, v.module, trace)
+	}
+	trace(fn)
+	return usedGlobals
 }
 
 // validateFunctions checks all functions.
